@@ -186,3 +186,134 @@ Proof.
   - intros [H _]. vm_compute in H. discriminate.
   - vm_compute. reflexivity.
 Qed.
+
+Lemma split_aux_pieces : forall pat, pat <> [] -> forall bs cur, find_sub pat (rev cur ++ bs) = None ->
+  Forall (fun l => find_sub pat l = None) (split_aux cur bs).
+Proof.
+  intros pat Hpat. induction bs as [|b r IH]; intros cur H; cbn [split_aux].
+  - rewrite app_nil_r in H. destruct cur as [|c cur']; [constructor|]. constructor; [exact H|constructor].
+  - replace (rev cur ++ b :: r) with ((rev cur ++ [b]) ++ r) in H by (rewrite <- app_assoc; reflexivity).
+    destruct (b =? NL).
+    + constructor.
+      * cbn [rev]. eapply find_sub_drop_suffix; [exact Hpat|exact H].
+      * apply IH. cbn [rev app]. eapply find_sub_drop_prefix; exact H.
+    + apply IH. cbn [rev]. exact H.
+Qed.
+
+(* ---------- finished_testcases on the ideal stream: as many as there are test cases, and the first with the code ---------- *)
+Lemma finished_other_lines : forall salt code ls rest n first, Forall (fun l => find_sub (needle salt) l = None) ls ->
+  finished_lines salt code (ls ++ rest) n first = finished_lines salt code rest n first.
+Proof.
+  intros salt code. induction ls as [|l ls IH]; intros rest n first H; [reflexivity|].
+  inversion H; subst. cbn [app finished_lines]. rewrite (parse_salted_other salt l H2). apply IH. exact H3.
+Qed.
+
+Theorem finished_ideal_gen : forall salt code outs i n first, salt_plain salt -> Forall (payload_salted salt) outs ->
+  i + N.of_nat (length outs) <= 18446744073709551616 ->
+  finished_lines salt code (split_lines (ideal salt i outs)) n first
+  = (n + N.of_nat (length outs), match first with Some f => Some f | None => first_code code outs n end).
+Proof.
+  intros salt code outs. induction outs as [|[p c] r IH]; intros i n first Hs Ho Hi.
+  - cbn [ideal length first_code]. cbn. rewrite N.add_0_r. destruct first; reflexivity.
+  - inversion Ho as [|x y [Hp Hc] Hr]; subst. cbn [fst snd] in Hp, Hc.
+    cbn [ideal]. unfold split_lines, divider_line.
+    set (d := PREFIX ++ salt ++ COLONS ++ dec i ++ COLONS ++ decz c).
+    replace (p ++ (PREFIX ++ salt ++ COLONS ++ dec i ++ COLONS ++ decz c ++ [10]) ++ ideal salt (i + 1) r)
+      with (p ++ d ++ 10 :: ideal salt (i + 1) r) by (unfold d; rewrite <- !app_assoc; reflexivity).
+    assert (Dn: Forall (fun x => x <> 10) d).
+    { unfold d. rewrite !Forall_app. repeat split.
+      - unfold PREFIX. repeat constructor; discriminate.
+      - eapply Forall_impl; [|exact Hs]; cbn; tauto.
+      - unfold COLONS. repeat constructor; discriminate.
+      - eapply Forall_impl; [|apply dec_digits]. cbn beta. intros x H. unfold is_digit in H. lia.
+      - unfold COLONS. repeat constructor; discriminate.
+      - eapply Forall_impl; [|apply decz_no_colon_nl]; cbn; tauto. }
+    rewrite (split_aux_cut p [] d _ Dn).
+    assert (Hp': find_sub (needle salt) (rev [] ++ p) = None) by exact Hp.
+    destruct (cut_pieces_pat (needle salt) (needle_nonempty salt) p [] Hp') as [F T].
+    rewrite (finished_other_lines salt code _ _ n first F). cbn [finished_lines].
+    assert (Ed: d ++ [10] = divider_line salt i c) by (unfold d, divider_line; rewrite <- !app_assoc; reflexivity).
+    rewrite Ed.
+    pose proof (parse_salted_line2 _ salt i c T Hs ltac:(cbn [length] in Hi; lia) Hc) as PD.
+    unfold byte in *. rewrite PD.
+    change (split_aux [] (ideal salt (i + 1) r)) with (split_lines (ideal salt (i + 1) r)).
+    rewrite (IH (i + 1) (n + 1) _ Hs Hr ltac:(cbn [length] in Hi; lia)).
+    f_equal; [cbn [length]; lia|].
+    cbn [first_code]. destruct first as [f|]; [reflexivity|]. destruct (c =? code)%Z; reflexivity.
+Qed.
+
+Theorem finished_ideal : forall salt code outs, salt_plain salt -> Forall (payload_salted salt) outs ->
+  N.of_nat (length outs) <= 18446744073709551616 ->
+  finished salt code (ideal salt 0 outs) = (N.of_nat (length outs), first_code code outs 0).
+Proof.
+  intros salt code outs Hs Ho Hi. unfold finished. rewrite (finished_ideal_gen salt code outs 0 0 None Hs Ho ltac:(lia)).
+  f_equal.
+Qed.
+
+(* the whole decision for a script that ran to its end: the document is skipped exactly when a test case ended in the
+   skip code -- at the first such test case -- and otherwise every test case gets its own output and exit code; the exit
+   status of the shell itself does not matter then (every test case printed its divider) *)
+Theorem script_verdict_ideal : forall salt skip exit outs, salt_plain salt -> Forall (payload_salted salt) outs ->
+  N.of_nat (length outs) <= 18446744073709551616 ->
+  script_verdict salt skip (N.of_nat (length outs)) exit (ideal salt 0 outs)
+  = match first_code skip outs 0 with Some i => VSkip i | None => VOuts outs end.
+Proof.
+  intros salt skip exit outs Hs Ho Hi. unfold script_verdict. rewrite (finished_ideal salt skip outs Hs Ho Hi).
+  destruct (first_code skip outs 0) as [k|] eqn:E; [reflexivity|].
+  rewrite N.ltb_irrefl, andb_false_r. unfold split_outputs.
+  rewrite (split_ideal_salted salt outs 0 Hs Ho ltac:(lia)). rewrite E, N.eqb_refl. reflexivity.
+Qed.
+
+(* the script was left early (`exit <skip code>` in test case k): the dividers of the test cases before it are there, its
+   own is not; the document is skipped -- at an earlier test case that ended in the skip code if there is one *)
+Theorem script_verdict_left_early : forall salt skip outs partial ntests, salt_plain salt -> Forall (payload_salted salt) outs ->
+  find_sub (needle salt) partial = None ->
+  N.of_nat (length outs) < ntests -> ntests <= 18446744073709551616 ->
+  exists k, script_verdict salt skip ntests skip (ideal salt 0 outs ++ partial) = VSkip k
+            /\ (first_code skip outs 0 = None -> k = 0) /\ (forall j, first_code skip outs 0 = Some j -> k = j).
+Proof.
+  intros salt skip outs partial ntests Hs Ho Hpart Hn Hmax.
+  assert (Fin: finished salt skip (ideal salt 0 outs ++ partial) = (N.of_nat (length outs), first_code skip outs 0)).
+  { (* the partial output adds lines without the needle after the last divider line *)
+    unfold finished.
+    assert (G: forall outs i n first, Forall (payload_salted salt) outs -> i + N.of_nat (length outs) <= 18446744073709551616 ->
+      finished_lines salt skip (split_lines (ideal salt i outs ++ partial)) n first
+      = (n + N.of_nat (length outs), match first with Some f => Some f | None => first_code skip outs n end)).
+    { clear outs Ho Hn. induction outs as [|[p c] r IH]; intros i n first Ho Hi.
+      - cbn [ideal app length first_code N.of_nat].
+        pose proof (split_aux_pieces (needle salt) (needle_nonempty salt) partial [] Hpart) as L.
+        change (split_aux [] partial) with (split_lines partial) in L.
+        pose proof (finished_other_lines salt skip _ [] n first L) as FO. rewrite app_nil_r in FO.
+        unfold byte in *. rewrite FO.
+        cbn [finished_lines]. rewrite N.add_0_r. destruct first; reflexivity.
+      - inversion Ho as [|x y [Hp Hc] Hr]; subst. cbn [fst snd] in Hp, Hc.
+        cbn [ideal]. unfold split_lines, divider_line.
+        set (d := PREFIX ++ salt ++ COLONS ++ dec i ++ COLONS ++ decz c).
+        replace ((p ++ (PREFIX ++ salt ++ COLONS ++ dec i ++ COLONS ++ decz c ++ [10]) ++ ideal salt (i + 1) r) ++ partial)
+          with (p ++ d ++ 10 :: (ideal salt (i + 1) r ++ partial)) by (unfold d; rewrite <- !app_assoc; reflexivity).
+        assert (Dn: Forall (fun x => x <> 10) d).
+        { unfold d. rewrite !Forall_app. repeat split.
+          - unfold PREFIX. repeat constructor; discriminate.
+          - eapply Forall_impl; [|exact Hs]; cbn; tauto.
+          - unfold COLONS. repeat constructor; discriminate.
+          - eapply Forall_impl; [|apply dec_digits]. cbn beta. intros x H. unfold is_digit in H. lia.
+          - unfold COLONS. repeat constructor; discriminate.
+          - eapply Forall_impl; [|apply decz_no_colon_nl]; cbn; tauto. }
+        rewrite (split_aux_cut p [] d _ Dn).
+        assert (Hp': find_sub (needle salt) (rev [] ++ p) = None) by exact Hp.
+        destruct (cut_pieces_pat (needle salt) (needle_nonempty salt) p [] Hp') as [F T].
+        rewrite (finished_other_lines salt skip _ _ n first F). cbn [finished_lines].
+        assert (Ed: d ++ [10] = divider_line salt i c) by (unfold d, divider_line; rewrite <- !app_assoc; reflexivity).
+        rewrite Ed.
+        pose proof (parse_salted_line2 _ salt i c T Hs ltac:(cbn [length] in Hi; lia) Hc) as PD.
+        unfold byte in *. rewrite PD.
+        change (split_aux [] (ideal salt (i + 1) r ++ partial)) with (split_lines (ideal salt (i + 1) r ++ partial)).
+        rewrite (IH (i + 1) (n + 1) _ Hr ltac:(cbn [length] in Hi; lia)).
+        f_equal; [cbn [length]; lia|].
+        cbn [first_code]. destruct first as [f|]; [reflexivity|]. destruct (c =? skip)%Z; reflexivity. }
+    rewrite (G outs 0 0 None Ho ltac:(lia)). f_equal. }
+  unfold script_verdict. rewrite Fin. destruct (first_code skip outs 0) as [j|] eqn:E.
+  - exists j. split; [reflexivity|]. split; [discriminate|]. intros j0 H. injection H as <-. reflexivity.
+  - exists 0. rewrite Z.eqb_refl. assert (L: (N.of_nat (length outs) <? ntests) = true) by lia. rewrite L.
+    split; [reflexivity|]. split; [reflexivity|discriminate].
+Qed.
